@@ -175,3 +175,13 @@ Proof.
   apply (Ex (sort_keys Qle_bool ks) ys a b v y); [|exact Iy].
   eapply Forall2_impl_in; [|exact F]. intros x y' _ [inst [Ii [A Va]]]. apply (Lin inst x y' Ii A Va).
 Qed.
+
+Theorem linear_trend_lsq assign template rest q qv r ks a b p :
+  wf template = true -> is_obj template ->
+  interp_at_Q linreg_Q assign (template :: rest) q qv = ONew r ->
+  keys_of inject_Z q (template :: rest) = Some ks -> distinct Qeq_bool ks ->
+  In p (fpaths template) -> (assign = true -> p <> qkeys q) ->
+  (forall inst t y, In inst (template :: rest) -> abscissa inject_Z q inst = Some t ->
+                    value_at inject_Z p inst = Some y -> y == a * t + b) ->
+  exists v y, num_of inject_Z qv = Some v /\ get p r = Some (TF y) /\ y == a * v + b.
+Proof. apply linear_trend. exact linreg_exact_on_affine. Qed.
